@@ -12,7 +12,7 @@ import subprocess
 import sys
 
 HERE = os.path.dirname(os.path.abspath(__file__))
-ENV = dict(os.environ, PYTHONPATH="/tmp/pystubs", SYMPY_GROUND_TYPES="python", MPLBACKEND="Agg")
+ENV = dict(os.environ, PYTHONDONTWRITEBYTECODE="1", PYTHONPATH="/tmp/pystubs", SYMPY_GROUND_TYPES="python", MPLBACKEND="Agg")
 
 
 def run(cmd, cwd, timeout=1200):
